@@ -62,3 +62,45 @@ def runTrace (p : Params) : LState → List Label → Option LState
     | none => none
 
 end PV.Queues.PCQLate
+
+/-
+A second VARIANT, of the unbounded queue: `Produce` links a freshly allocated page to its predecessor only AFTER the semaphore post
+for the first entry of that page ("a linked page is never empty").  The consumer, woken by that post, follows a `next` pointer that
+is still null.
+-/
+namespace PV.Queues.USQLate
+open PV.Queues PV.Queues.USQ
+
+structure LState where
+  base : USQ.State
+  pendingLink : Bool              -- a page has been allocated by the current Produce and is not linked yet
+  deriving Repr, DecidableEq
+
+def init : LState := { base := USQ.init, pendingLink := false }
+
+inductive Label where
+  | pPage | pWrite | pPost | pLink | cWait | cPage | cRead
+  deriving Repr, DecidableEq
+
+def step (p : Params) (s : LState) : Label → Option LState
+  | .pPage =>
+    if s.base.pPc = .idle ∧ s.base.produced < p.n ∧ s.pendingLink = false then
+      let w := s.base.written.length
+      if w = (s.base.pPage + 1) * p.pageSize then
+        some { base := { s.base with pPage := s.base.pPage + 1, pPc := .paged }, pendingLink := true }      -- allocated, NOT linked
+      else some { s with base := { s.base with pPc := .paged } }
+    else none
+  | .pWrite => (USQ.step p s.base .pWrite).map (fun b => { s with base := b })
+  | .pPost => (USQ.step p s.base .pPost).map (fun b => { s with base := b })
+  | .pLink => if s.pendingLink ∧ s.base.pPc = .idle then some { base := { s.base with linked := s.base.linked + 1 }, pendingLink := false } else none
+  | .cWait => (USQ.step p s.base .cWait).map (fun b => { s with base := b })
+  | .cPage => (USQ.step p s.base .cPage).map (fun b => { s with base := b })
+  | .cRead => (USQ.step p s.base .cRead).map (fun b => { s with base := b })
+
+def runTrace (p : Params) : LState → List Label → Option LState
+  | s, [] => some s
+  | s, l :: ls => match step p s l with
+    | some s' => runTrace p s' ls
+    | none => none
+
+end PV.Queues.USQLate
